@@ -1293,7 +1293,7 @@ CLAUSES = [
                 'all_indices(maxindex, reduce) equals the set of all / all coprime non-zero triples'),
     Clause('random', oracle_random, g16.random_cases, quick=16000, thorough=300000,
            min_share={'nt': 0.25, 'op_normal': 0.18, 'op_reduce': 0.08, 'shape_MN': 0.15, 'shape_0': 0.09, 'in_zone': 0.03,
-                      'refusal_nonhex': 0.05, 'four': 0.1, 'form_list': 0.15, 'fam_monoclinic': 0.035, 'fam_rhombohedral': 0.035,
+                      'refusal_nonhex': 0.05, 'four': 0.1, 'form_list': 0.12, 'fam_monoclinic': 0.035, 'fam_rhombohedral': 0.035,
                       'fam_triclinic': 0.08, 'fractional': 0.07, 'form_tuple': 0.03, 'form_i32': 0.03, 'form_nc': 0.03,
                       'form_fortran': 0.03, 'form_ro': 0.03, 'form_npscalars': 0.03,
                       'narrow': 0.15, 'dt_overflow': 0.035, 'form_i8': 0.024, 'form_u8': 0.024, 'form_i16': 0.02, 'form_u16': 0.008,
@@ -1319,7 +1319,7 @@ CLAUSES = [
                 'answer is judged against the cell as it is now'),
     Clause('call_history', oracle_call_history, g16.call_history_cases, quick=1500, thorough=40000,
            min_share={'nt': 0.38, 'related': 0.3, 'mixed': 0.13, 'several_kinds': 0.25, 'settings_mixed': 0.1, 't1_and_t2': 0.025,
-                      'cells_mixed': 0.12, 'op_centering': 0.19, 'op_normal': 0.17, 'op_strings': 0.075, 'op_family': 0.05,
+                      'cells_mixed': 0.12, 'op_centering': 0.19, 'op_normal': 0.17, 'op_strings': 0.04, 'op_family': 0.035,
                       'narrow': 0.14, 'dt_overflow': 0.03},
            desc='HISTORY of module-level calls in one process: 2-5 complete cases of the clauses random / strings / family (half of the sequences: '
                 'one index block through the same operation with another centring setting / the same lattice in another orientation / another '
